@@ -103,8 +103,18 @@ def r3_lookup(m):
                 if loops:
                     stale = (cd, "`%s` can be an element of `%s`" % (v.id, A.text(loops[0].iter)[:40]))
             for sv in srcs:
-                # (re-entering an existing TOP-LEVEL table through self.lookup() is the documented behaviour outside any scope)
-                fresh = isinstance(sv, ast.Call) and (A.text(sv.func) in ("SymbolTable", "self.add", "self.lookup") or A.text(sv.func).endswith(".add"))
+                fresh = isinstance(sv, ast.Call) and (A.text(sv.func) in ("SymbolTable", "self.add") or A.text(sv.func).endswith(".add"))
+                if not fresh and isinstance(sv, ast.Call) and A.text(sv.func) == "self.lookup":
+                    # re-entering an existing TOP-LEVEL table is the documented behaviour, but only outside any scope
+                    from rules import delim_rules as D
+                    Pe = A.parents(es.node)
+                    facts = []
+                    for t_, pol_ in D.facts_at(es.node, sv, Pe):
+                        facts += D.expand(t_, pol_)
+                    fresh = any(A.text(t_) == "self._current_scope" and not pol_ for t_, pol_ in facts) or \
+                        any(A.text(t_) in ("self._current_scope is None",) and pol_ for t_, pol_ in facts)
+                    if not fresh and stale is None:
+                        stale = (cd, "a top-level table found with `%s` is re-entered even while inside another scope" % A.text(sv)[:40])
                 if not fresh and stale is None:
                     stale = (cd, "`%s` is not a newly constructed table" % A.text(sv)[:40])
         r.ob(stale is None and bool(cur_defs), "SymbolTables.enter_scope: the scope entered is always a table constructed in this call")
